@@ -1820,10 +1820,10 @@ output(std::ostream &out, int indent_level, CPPScope *scope, bool) const {
           break;
 
         default:
-          if (isprint(*si)) {
+          if (isprint((unsigned char)*si)) {
             out << *si;
           } else {
-            out << '\\' << std::oct << std::setw(3) << std::setfill('0') << (int)(*si)
+            out << '\\' << std::oct << std::setw(3) << std::setfill('0') << (int)(unsigned char)(*si)
                 << std::dec << std::setw(0);
           }
         }
